@@ -70,6 +70,12 @@ CHECKS = {
     text="Search, not proof: 20k/1.5M key triples, 6k/400k PlayReady objects, 3k/200k licence requests, 0.9k/40k manifest-vs-init comparisons per tier.",
     note=SHIMS + ". vt/aes.py is checked against the FIPS-197 vectors at import of its self-test. Licence URLs with braces that are not documented format fields are outside this property's domain (their 5xx is C16's).",
     design_ref="DESIGN.md section 4, C11"),
+ "C05": dict(
+    engine="hypothesis",
+    technique="generated (template, mode, route, options, clock, hostile stored/query/header strings); metamorphic shape invariance against the same request with benign strings, canary elements/attributes, lxml well-formedness, and a structural MPD rule set written from ISO/IEC 23009-1 (not the repository's validator)",
+    text="Search, not proof: 2.4k/150k manifest pairs and 0.4k/30k patch documents per tier over every template x supported mode, single- and multi-period routes; on a not-well-formed response the responsible sink is isolated by re-requesting with one hostile string at a time.",
+    note=SHIMS + ". Own application instance (stored strings are rewritten per case). One open known finding (C05-K1: manifest_h/manifest_i omit publishTime).",
+    design_ref="DESIGN.md section 4, C05"),
 }
 
 _PENDING = "check under construction in this build round; not yet registered (see DESIGN.md section 9)"
